@@ -499,6 +499,14 @@ where
         let volume_info = &data.open_volumes[volume_idx];
         let sfn = name.to_short_filename().map_err(Error::FilenameError)?;
 
+        if sfn == ShortFileName::this_dir() || sfn == ShortFileName::parent_dir() {
+            // "." and ".." (and "", which converts to ".") name the directory
+            // itself and its parent - also in the root directory, which has no
+            // such entries on disk and would otherwise let a file be created
+            // under these names.
+            return Err(Error::OpenedDirAsFile);
+        }
+
         let dir_entry = match &volume_info.volume_type {
             VolumeType::Fat(fat) => fat.find_directory_entry(
                 &mut data.block_cache,
@@ -1072,6 +1080,12 @@ where
         let volume_idx = data.get_volume_by_id(volume_id)?;
         let volume_info = &data.open_volumes[volume_idx];
         let sfn = name.to_short_filename().map_err(Error::FilenameError)?;
+
+        if sfn == ShortFileName::this_dir() || sfn == ShortFileName::parent_dir() {
+            // "." and ".." always exist, as far as a caller is concerned - also
+            // in the root directory, which has no such entries on disk.
+            return Err(Error::DirAlreadyExists);
+        }
 
         debug!("Creating directory '{}'", sfn);
         debug!(
